@@ -22,8 +22,11 @@ CHECK_DEADLOCK FALSE
 """
 
 
-def rows_for(ctx, universes, ops):
-    """Run TLC on the named universes, return path of the ndjson with the rows whose op is in ops."""
+def rows_for(ctx, universes, ops, extra=()):
+    """Run TLC on the named universes, return path of the ndjson with the rows whose op is in ops.
+    extra: (universe, ops) pairs contributing only the named operations (quick-tier slices of a larger universe)."""
+    only = {u: o for u, o in extra}
+    universes = list(universes) + [u for u in only if u not in universes]
     p = ctx.path("repo_rows.ndjson")
     n = 0
     per = {}
@@ -34,7 +37,7 @@ def rows_for(ctx, universes, ops):
             r = ctx.tlc("MCRepo", cfg=("repo_%s.cfg" % u.replace("+", "_")), cfg_text=cfg, workers=1, timeout=3000, heap="6g")
             k = 0
             for row in ctx.printed_json(r):
-                if row.get("op") in ops:
+                if row.get("op") in (only.get(u) or ops):
                     row["universe"] = u
                     f.write(json.dumps(row) + "\n")
                     k += 1
@@ -46,9 +49,9 @@ def rows_for(ctx, universes, ops):
     return p, n
 
 
-def run_prop(ctx, prop, universes_quick, universes_thorough, ops, max_quick):
+def run_prop(ctx, prop, universes_quick, universes_thorough, ops, max_quick, quick_extra=()):
     unis = universes_thorough if ctx.thorough else universes_quick
-    p, n = rows_for(ctx, unis, ops)
+    p, n = rows_for(ctx, unis, ops, () if ctx.thorough else quick_extra)
     args = [prop, p]
     if not ctx.thorough and n > max_quick:
         args.append(str(max_quick))
